@@ -8,6 +8,8 @@ namespace SaModel
 inductive Fail where
   | err (msg : String)
   | panic (site : String)
+  /-- an error that already carries annotations (`ContextSupport::ctx`: the innermost context wins) -/
+  | errCtx (msg : String) (ann : List (String × String))
 deriving Repr, BEq, DecidableEq, Inhabited
 
 abbrev R := Except Fail
@@ -28,6 +30,7 @@ def R.isOk {α} : R α → Bool
 
 def R.isErr {α} : R α → Bool
   | .error (.err _) => true
+  | .error (.errCtx _ _) => true
   | _ => false
 
 def R.isPanic {α} : R α → Bool
@@ -38,6 +41,17 @@ def R.isPanic {α} : R α → Bool
 def R.cls {α} : R α → String
   | .ok _ => "ok"
   | .error (.err _) => "err"
+  | .error (.errCtx _ _) => "err"
   | .error (.panic _) => "panic"
+
+/-- `ContextSupport::ctx`: annotate an error that carries no annotations yet; never touches `ok`/`panic` -/
+def ctx {α} (ann : List (String × String)) : R α → R α
+  | .error (.err msg) => if ann.isEmpty then .error (.err msg) else .error (.errCtx msg ann)
+  | r => r
+
+/-- annotations of an outcome (empty for `ok`, `panic` and un-annotated errors) -/
+def R.ann {α} : R α → List (String × String)
+  | .error (.errCtx _ a) => a
+  | _ => []
 
 end SaModel
